@@ -278,6 +278,12 @@ func Select(hasDefault bool, cases ...Case) int {
 			// select with only nil channels: blocks for ever
 			keys = append(keys, g)
 		}
+		for _, c := range cases {
+			if c.isSend() && !c.unbuffered() && c.key() != 0 {
+				k.probes.add("chan.send-blocked-on-full-queue", 1)
+				break
+			}
+		}
 		Block(keys...)
 		if g.fired >= 0 {
 			RaceAcquire(cases[g.fired].addr())
